@@ -75,4 +75,14 @@ TEXT = {
   "level_text": "Transactions staging 1-4 new/existing branches through the in-process CLI; every crash point and every single write failure of commit and discard is enumerated per case; oracle: every branch untouched with the transaction in progress, or completable by re-running to exactly one new commit per branch carrying the staged table, committed status and one tagged reflog entry per branch; never two commits ahead; committed transactions refuse commit and discard.",
   "level_note": _T,
  },
+ "C09": {
+  "technique": "multi-node deterministic simulation: client repositories and a remote in one process, every wrgl command an in-process CLI process in its own synctest bubble (per-node clocks), real client sessions / fetch / push / pull over a simulated network (simnet RoundTripper with chunking and injected loss, duplication, 5xx, stream errors, server restarts, delays) against a reference server assembled from wrgl's own finder/sender/receiver",
+  "level_text": "Seeded exploration of 6-17-operation histories on three nodes x server knobs (table-negotiation batch, max packfile size) x client pack size x response chunking; fault-free profile: closure, tables within depth, byte-identical objects, I1-I4 on all nodes after every operation, immediate repeat transfers nothing; fault profile: an operation may fail, success implies the postcondition, failures leave I1-I4 intact, and after the last fault one more fetch succeeds within a request budget (push back-off and delays run on the fake clock).",
+  "level_note": _T + " The remote's HTTP glue (routing, sessions, ref compare-and-swap, policy) is a harness stub written from the client's expectations (DESIGN 2.5.1); only client-side code under /repo is judged. A commit that was already present without its table (earlier --depth fetch) staying shallow after a full fetch is wrgl's documented behaviour (`wrgl fetch tables`) and is reported as class table-missing-previously-shallow, which this check does not count.",
+ },
+ "C10": {
+  "technique": "monitor over the multi-node deterministic simulation: every ref transition is recorded at the ref-store seam (SimRef) and every receive-pack request at the server seam, and judged against ancestry computed independently from the raw commit objects",
+  "level_text": "Seeded exploration biased towards diverged local/remote histories, skewed node clocks (descendants older than ancestors), tags moved on the remote, --force / +refspec / --ff / --no-ff / --ff-only; checks: non-forced moves go to descendants only, tags never clobbered, rejections reported with the ref untouched, fast-forward lands exactly on the other commit, reflog entries carry the true old/new, pushes never ask for a non-fast-forward or tag move without force.",
+  "level_note": _T + " Remote-tracking refs are updated through the '+refs/heads/*:refs/remotes/origin/*' refspec that `wrgl remote add` configures, i.e. explicitly forced, as in git.",
+ },
 }
